@@ -244,6 +244,10 @@ func parseReturnPayload(ctx context.Context, payload string, appName []string) (
 }
 
 func parseFieldType(appName []string, t *sysl.Type) interface{} {
+	// A view that declares no return type, and for which none is inferred, has none.
+	if t == nil {
+		return nil
+	}
 	switch t := t.Type.(type) {
 	case *sysl.Type_Primitive_:
 		return TypePrimitive{Primitive: t.Primitive.String()}
